@@ -20,7 +20,10 @@ INFO = {
     "points).  Operations: parse w_i with P (sentence or not - decided by the path); parse w_i with a recovering parser "
     "on G; parse w_i with P where a user action raises for inputs starting with 'b'; build GLRParser(G); build "
     "Parser(G, tables=SLR); build another Parser(G) (G may contain a LAYOUT rule, so the layout sub-parser is rebuilt); "
-    "a build that fails (strategies off on a conflicting grammar).  After the history every string of length <= 3 over "
+    "a build that fails (strategies off on a conflicting grammar); build GLRParser(G, prefer_shifts=True, "
+    "prefer_shifts_over_empty=True) (same table options as the LR parser, other lexical_disambiguation).  A GLRParser "
+    "instance built before the history goes through the same parse operations.  One grammar has a string terminal "
+    "overlapping a custom 'word' recogniser and a recogniser that raises when error reporting probes it.  After the history every string of length <= 3 over "
     "the grammar's alphabet plus a layout and a foreign character is parsed with P, and with a Parser and a GLRParser "
     "constructed on G after the history; every outcome (result / forest size + first trees / exception type + position) "
     "and the serialised tables must equal those of parsers freshly built from freshly parsed grammar text; "
@@ -46,8 +49,33 @@ class Boom(Exception):
 
 G_EXPR = "E: E '+' E | 'a' | 'b';"
 G_LAYOUT = "S: S 'a' | 'b' | S 'c' S;\nLAYOUT: LI | LAYOUT LI | EMPTY;\nLI: '_';"
-GRAMMARS = {"expr": (G_EXPR, "ab+ z"), "layout": (G_LAYOUT, "abc_z")}
-OPS = ["parse", "recover", "raise", "build_glr", "build_slr", "build_lr", "build_fail"]
+# string terminal 'ab' vs. a custom "word" recogniser (stands for a regex: longest run of a/b/c); terminal Z is expected only
+# after 'x' and its recogniser raises on the character 'z' - so at an error position it is reached only through error reporting
+G_OVER = "S: Item S | Item | 'x' Z;\nItem: 'ab' | W;\nterminals\nW: ;\nZ: ;"
+GRAMMARS = {"expr": (G_EXPR, "ab+ z"), "layout": (G_LAYOUT, "abc_z"), "overlap": (G_OVER, "abcxz")}
+OPS = ["parse", "recover", "raise", "build_glr", "build_slr", "build_lr", "build_fail", "build_glr_ps"]
+
+
+def make_recognizers(gname):
+    if gname != "overlap":
+        return None
+
+    def word(input, pos):
+        e = pos
+        while e < len(input) and input[e] in "abc":
+            e += 1
+        return input[pos:e] if e > pos else None
+
+    def zed(input, pos):
+        if input[pos : pos + 1] == "z":
+            raise Boom()
+        return None
+
+    return {"W": word, "Z": zed}
+
+
+def mk_grammar(gname):
+    return Grammar.from_string(GRAMMARS[gname][0], recognizers=make_recognizers(gname))
 
 
 def make_actions(gname):
@@ -56,6 +84,8 @@ def make_actions(gname):
             raise Boom()
         return "b"
 
+    if gname == "overlap":
+        return {}
     if gname == "expr":
         return {"E": [lambda _, n: [n[0], "+", n[2]], lambda _, n: "a", raising]}
     return {"S": [lambda _, n: [n[0], "a"], raising, lambda _, n: [n[0], "c", n[2]]]}
@@ -64,10 +94,11 @@ def make_actions(gname):
 def cases(tier, seed):
     out = []
     vecs2 = list(itertools.product(range(len(OPS)), repeat=2))
+    over = [(0, 0), (0, 7), (7, 0), (7, 5), (3, 7), (1, 0), (0, 3), (4, 0), (7, 7), (5, 7), (0, 1), (2, 0)]
     if tier == "quick":
-        sel = {"expr": vecs2, "layout": [(0, 5), (5, 0), (3, 0), (6, 0), (1, 0), (2, 0), (4, 5), (6, 5), (2, 2), (1, 3), (0, 6), (5, 5)]}
+        sel = {"expr": vecs2, "overlap": over, "layout": [(0, 5), (5, 0), (3, 0), (6, 0), (1, 0), (2, 0), (4, 5), (6, 5), (2, 2), (1, 3), (0, 6), (5, 5)]}
     else:
-        sel = {"expr": vecs2, "layout": vecs2}
+        sel = {"expr": vecs2, "layout": vecs2, "overlap": vecs2}
     for gn, vs in sel.items():
         for v in vs:
             out.append({"name": "%s|%s" % (gn, ",".join(OPS[o] for o in v)), "params": {"g": gn, "ops": list(v)}, "budget_s": 3000})
@@ -113,11 +144,13 @@ def build(params, symbolic):
     for L in (1, 2, 3):
         probes += ["".join(cs) for cs in itertools.product(alphabet, repeat=L)]
     # fresh reference (freshly parsed grammar text, fresh parsers, each outcome computed on a parser that parsed nothing else)
-    fg = Grammar.from_string(text)
+    fg = mk_grammar(params["g"])
     fresh_lr = Parser(fg, actions=make_actions(params["g"]))
-    fresh_glr = GLRParser(Grammar.from_string(text), actions=make_actions(params["g"]))
-    fresh = {w: (outcome(fresh_lr, w), outcome(fresh_glr, w)) for w in probes}
-    fresh_fp = (fp(fresh_lr), fp(fresh_glr))
+    fresh_glr = GLRParser(mk_grammar(params["g"]), actions=make_actions(params["g"]))
+    can_fail = params["g"] != "overlap"
+    fresh_glr_ps = GLRParser(mk_grammar(params["g"]), actions=make_actions(params["g"]), prefer_shifts=True, prefer_shifts_over_empty=True)
+    fresh = {w: (outcome(fresh_lr, w), outcome(fresh_glr, w), outcome(fresh_glr_ps, w)) for w in probes}
+    fresh_fp = (fp(fresh_lr), fp(fresh_glr), fp(fresh_glr_ps))
     stats = {}
     L = len(ops)
 
@@ -125,8 +158,9 @@ def build(params, symbolic):
         ns = [length_of(w, 2) for w in ws]
         acts = make_actions(params["g"])
         with native():
-            G = Grammar.from_string(text)
+            G = mk_grammar(params["g"])
             P = Parser(G, actions=acts)
+            PG = GLRParser(G, actions=acts)
             rhs0 = list(list.__iter__(G.productions[0].rhs))
             first0 = {k: set(v) for k, v in G._first_sets.items()} if hasattr(G, "_first_sets") else None
             R = None
@@ -135,6 +169,10 @@ def build(params, symbolic):
             if name in ("parse", "raise"):
                 try:
                     P.parse(w)
+                except (parglare.SyntaxError, Boom):
+                    pass
+                try:
+                    PG.parse(w)
                 except (parglare.SyntaxError, Boom):
                     pass
             elif name == "recover":
@@ -153,6 +191,10 @@ def build(params, symbolic):
                             Parser(G, actions=acts, tables=SLR)
                         elif name == "build_lr":
                             Parser(G, actions=acts)
+                        elif name == "build_glr_ps":
+                            GLRParser(G, actions=acts, prefer_shifts=True, prefer_shifts_over_empty=True)
+                        elif not can_fail:
+                            pass
                         else:
                             try:
                                 Parser(G, actions=acts, prefer_shifts=False, prefer_shifts_over_empty=False)
@@ -169,12 +211,13 @@ def build(params, symbolic):
         with native():
             P2 = Parser(G, actions=acts)
             P3 = GLRParser(G, actions=acts)
-            if (fp(P2), fp(P3)) != fresh_fp:
+            P4 = GLRParser(G, actions=acts, prefer_shifts=True, prefer_shifts_over_empty=True)  # LR's table options, GLR's scanning
+            if (fp(P2), fp(P3), fp(P4)) != fresh_fp:
                 return "tables built on the used Grammar differ from tables of a fresh Grammar"
             for w in probes:
                 want = fresh[w]
                 if twin and w == "a":
-                    want = (("ok", "'b'", 0), want[1])
+                    want = (("ok", "'b'", 0), want[1], want[2])
                 got = outcome(P, w)
                 if got != want[0]:
                     return "after the history P.parse(%r) gives %r, a fresh parser %r" % (w, got, want[0])
@@ -182,6 +225,10 @@ def build(params, symbolic):
                     return "Parser built after the history: parse(%r) gives %r, fresh %r" % (w, outcome(P2, w), want[0])
                 if outcome(P3, w) != want[1]:
                     return "GLRParser built after the history: parse(%r) differs from a fresh one" % w
+                if outcome(P4, w) != want[2]:
+                    return "GLRParser(prefer_shifts=True, ...) built after the history: parse(%r) gives %r, fresh %r" % (w, outcome(P4, w), want[2])
+                if outcome(PG, w) != want[1]:
+                    return "after the history the GLR instance gives %r for %r, a fresh GLRParser %r" % (outcome(PG, w), w, want[1])
         bump(stats, "histories")
         return True
 
